@@ -170,20 +170,28 @@ class C27(Prop):
     def gen(self, rng, tier):
         for l in HAND:
             yield Case(loads(l), stream='hand')
-        n = {'quick': 14, 'thorough': 300, 'search': 100}.get(tier, 14)
+        n = {'quick': 9, 'thorough': 280, 'search': 90}.get(tier, 9)
+        nd = {'quick': 6, 'thorough': 100, 'search': 50}.get(tier, 6)
+        for _ in range(nd):
+            prog = c26.directed_program(rng)
+            rc = rng.randint(1, 10 ** 6) if rng.random() < 0.6 else 0
+            if not c26.frontend_ok(prog, False, rc):
+                continue
+            yield Case([A('deps'), False, prog, c26.directed_inputs(rng, prog), rc], stream='directed')
         for name, prog in gen_programs(rng, n):
             enrich = rng.random() < 0.6
-            if not c26.frontend_ok(prog, enrich):
+            rc = rng.randint(1, 10 ** 6) if rng.random() < 0.5 else 0
+            if not c26.frontend_ok(prog, enrich, rc):
                 continue
             inputs = fir.gen_inputs(rng, prog, 3)
             u = fir.find_unit(prog, fir.prog_main(prog))
             nontrivial = any(_h(s) in ('do', 'while') for s in walk(u[4]))
-            yield Case([A('deps'), enrich, prog, inputs], stream=name, nontrivial=nontrivial)
+            yield Case([A('deps'), enrich, prog, inputs, rc], stream=name, nontrivial=nontrivial)
 
     def impl(self, req):
         from loki.analyse.dataflow_analysis import loop_carried_dependencies, read_after_write_vars
-        enrich, prog, _ = decode_req(req, 'deps')
-        b = built(prog, enrich)
+        enrich, prog, _, rc = decode_req(req, 'deps')
+        b = built(prog, enrich, rc)
         if b.error:
             return [A('error'), A(b.error)]
         lcd = [enc_set(sym_of(s) for s in loop_carried_dependencies(al.node)) for al in loops_of(b)]
@@ -194,8 +202,8 @@ class C27(Prop):
 
     def oracle(self, req):
         from loki.analyse.dataflow_analysis import loop_carried_dependencies, read_after_write_vars
-        enrich, prog, inputs = decode_req(req, 'deps')
-        b = built(prog, enrich)
+        enrich, prog, inputs, rc = decode_req(req, 'deps')
+        b = built(prog, enrich, rc)
         if b.error:
             cls = 'assoc-expr-selector-crash' if c26.has_assoc_crash(prog) else None
             return [Failure(f'attach_dataflow_analysis raised {b.error} on a valid routine', cls)]
